@@ -5,18 +5,32 @@ import json, os, re, shutil
 from vlib.conform import conform, read_log
 from vlib.core import Infra
 import mockgen as G
-from props.c09 import enc, enc_int, BITS, SIGNED
+from props.c09 import enc_int, BITS, SIGNED
+from mockgen import enc
 
-MC_QUICK = [("typed", dict(fns='"f"', pnames="", rets="RetsTyped", getters="GetTyped", maxexp=1, ns="1, 2", maxcalls=2))]
+# user types: comparators per scope (two scopes, one type name, objects that agree in the first field only), copiers per scope
+MC_CMP = dict(scopes="ScopesGS", fns='"f"', pnames='"p"', vals="ValsObjQ", ns="1", maxexp=1, maxcalls=1, maxinst=1)
+MC_CPY = dict(scopes="ScopesGS", fns='"f"', pnames="", onames='"x"', odata="Typed1", ns="1", maxexp=1, maxcalls=1, maxinst=1)
+MC_QUICK = [("typed", dict(fns='"f"', pnames="", rets="RetsTyped", getters="GetTyped", maxexp=1, ns="1, 2", maxcalls=2)),
+            ("comparators", MC_CMP), ("copiers", MC_CPY)]
 MC_THOROUGH = [("typed", dict(fns='"f", "g"', pnames='"p"', rets="RetsTyped", getters="GetTyped", maxexp=1, ns="1, 2", maxcalls=3)),
                ("typed2", dict(fns='"f"', pnames="", rets="RetsTyped", getters="GetTyped", maxexp=2, ns="1", maxcalls=3)),
                ("core", dict(maxcalls=3)),
-               ("scopes", dict(scopes="ScopesGS", fns='"f"', ns="1", maxexp=1, maxcalls=3, rets="Rets2", getters="GetTyped"))]
+               ("scopes", dict(scopes="ScopesGS", fns='"f"', ns="1", maxexp=1, maxcalls=3, rets="Rets2", getters="GetTyped")),
+               ("comparators", dict(MC_CMP, maxcalls=2)), ("comparators2", dict(MC_CMP, maxinst=2)), ("copiers", dict(MC_CPY, maxinst=2))]
 GEN = [("bfs", 5, None, None, dict(fns='"f"', ns="1", maxexp=1, maxcalls=2, rets="RetsTyped", getters="GetTyped")),
        ("sim", 14, 12, 500, dict(pnames='"p", "q"', vals="Vals3", rets="RetsTyped", getters="GetTyped", maxexp=3, ns="0, 1, 2", maxcalls=5)),
        ("simout", 14, 8, 300, dict(fns='"f"', pnames='"p"', rets="Rets3", getters="GetTyped", onames='"x"', odata="Raw2", maxexp=3, ns="1, 2", maxcalls=4)),
        ("simscope", 16, 10, 300, dict(scopes="ScopesGS", fns='"f"', pnames='"p"', rets="RetsTyped", getters="GetTyped", maxexp=2, ns="1, 2",
-                                      maxcalls=5, late="TRUE", toggles="TRUE"))]
+                                      maxcalls=5, late="TRUE", toggles="TRUE")),
+       # user types: comparators / copiers installed per scope (three scopes, re-installation, inheritance by scopes created later, removal),
+       # objects of two type names that agree in the first field or in both, output parameters of a user type
+       ("simtypes", 16, 14, 400, dict(scopes="ScopesGST", fns='"f"', pnames='"p"', vals="ValsObj2", rets="Rets2", maxexp=2, ns="1, 2", maxcalls=4,
+                                      maxinst=2, late="TRUE")),
+       ("simcopy", 14, 8, 250, dict(scopes="ScopesGST", fns='"f"', pnames='"p"', vals="ValsMixed", onames='"x"', odata="Typed2", rets="Rets2", maxexp=2,
+                                    ns="1", maxcalls=3, maxinst=2)),
+       # the data store: values of several kinds and objects of user types whose names begin like a built-in type name
+       ("simdata", 10, 8, 250, dict(scopes="ScopesGS", fns='"f"', pnames="", rets="Rets1", maxexp=1, ns="1", maxcalls=1, dkeys="Keys2", dvals="DVals1"))]
 
 LATTICE = [0, 1, 2, -1, -2, 2 ** 31 - 1, 2 ** 31, 2 ** 31 + 1, -2 ** 31, -2 ** 31 - 1, 2 ** 32 - 1, 2 ** 32, 2 ** 32 + 1, 2 ** 63 - 1, 2 ** 63,
            2 ** 64 - 1, -2 ** 63, -2 ** 63 + 1]
@@ -40,9 +54,9 @@ C_GETTERS = {"value": "returnValue", "bool": "boolReturnValue", "bool/d": "retur
              "fptr": "functionPointerReturnValue", "fptr/d": "returnFunctionPointerValueOrDefault"}
 C_SUPPORT_OTHER = ["strictOrder", "expectOneCall", "expectNoCall", "expectNCalls", "actualCall", "hasReturnValue", "setBoolData", "setIntData",
                    "setUnsignedIntData", "setStringData", "setDoubleData", "setPointerData", "setConstPointerData", "setFunctionPointerData",
-                   "setDataConstObject", "getData", "disable", "enable", "ignoreOtherCalls", "checkExpectations", "expectedCallsLeft", "clear",
+                   "setDataConstObject", "setDataObject", "getData", "disable", "enable", "ignoreOtherCalls", "checkExpectations", "expectedCallsLeft", "clear",
                    "installComparator", "installCopier", "removeAllComparatorsAndCopiers"]
-NOT_DRIVEN = ["MockSupport_c.setDataObject (same forwarder shape as setDataConstObject)", "MockSupport_c.crashOnFailure (would crash the harness)"]
+NOT_DRIVEN = ["MockSupport_c.crashOnFailure (would crash the harness)"]
 PARAM_FN = {"B": "withBoolParameters", "S": "withStringParameters", "M": "withMemoryBufferParameter", "O": "withParameterOfType"}
 INT_FN = {"int": "withIntParameters", "uint": "withUnsignedIntParameters", "long": "withLongIntParameters", "ulong": "withUnsignedLongIntParameters",
           "llong": "withLongLongIntParameters", "ullong": "withUnsignedLongLongIntParameters"}
@@ -106,13 +120,17 @@ def coverage(execs):
                 hit(table, C_GETTERS[l[2]])
             elif op == "setdata":
                 f = l[3].split("|")
-                hit("MockSupport_c", ("setIntData" if f[1] == "int" else "setUnsignedIntData") if f[0] == "I" else (DATA_PTR[f[1]] if f[0] == "P" else DATA_FN[f[0]]))
+                if f[0] == "O":
+                    hit("MockSupport_c", "setDataObject" if (len(l) > 4 and l[4] == "mut") else "setDataConstObject")
+                else:
+                    hit("MockSupport_c", ("setIntData" if f[1] == "int" else "setUnsignedIntData") if f[0] == "I" else (DATA_PTR[f[1]] if f[0] == "P" else DATA_FN[f[0]]))
+            elif op in ("installcmp", "installcpy", "removeall"):
+                hit("MockSupport_c", {"installcmp": "installComparator", "installcpy": "installCopier", "removeall": "removeAllComparatorsAndCopiers"}[op])
             elif op == "getdata":
                 hit("MockSupport_c", "getData")
             elif op in ("left", "check", "clear", "disable", "enable", "ignoreothers", "strict"):
                 hit("MockSupport_c", {"left": "expectedCallsLeft", "check": "checkExpectations", "ignoreothers": "ignoreOtherCalls", "strict": "strictOrder"}.get(op, op))
-    for n in ("installComparator", "installCopier", "removeAllComparatorsAndCopiers"):
-        cov["MockSupport_c." + n] = len(execs)        # every execution installs and removes the TypeA/TypeB helpers
+    # (the harness also calls removeAllComparatorsAndCopiers after every execution)
     return cov
 
 
@@ -134,7 +152,7 @@ def sweep(rng, quick):
     codes = list(BITS)
     ints = [(c, v) for c in codes for v in LATTICE if in_range(v, c)]
     others = ["B|0", "B|1", "P|v|0", "P|v|1", "P|c|0", "P|c|2", "P|f|0", "P|f|1", "P|f|2", "S|", "S|6162", "M|", "M|00ff10", "D|fin|0|8|dflt|0|0",
-              "D|fin|1|-4|fin|0|2", "D|inf|0|0|fin|0|0", "D|inf|1|0|dflt|0|0", "O|TypeA|3", "O|TypeB|1"]
+              "D|fin|1|-4|fin|0|2", "D|inf|0|0|fin|0|0", "D|inf|1|0|dflt|0|0"]
     getters = [g for g in C_GETTERS if g != "value"]
     dflt = {"bool": "B|1", "int": enc_int("int", -7), "uint": enc_int("uint", 7), "long": enc_int("long", -2 ** 40), "ulong": enc_int("ulong", 2 ** 40),
             "llong": enc_int("llong", -2 ** 62), "ullong": enc_int("ullong", 2 ** 63 + 5), "str": "S|646566", "double": "D|fin|0|20|fin|0|0",
@@ -155,10 +173,26 @@ def sweep(rng, quick):
             acts = [e.replace("dflt", "fin")]
         else:
             other = {"B|0": "B|1", "B|1": "B|0", "P|v|0": "P|v|1", "P|v|1": "P|c|1", "P|c|0": "P|c|2", "P|c|2": "P|v|2", "P|f|0": "P|f|1", "P|f|1": "P|f|2",
-                     "P|f|2": "P|f|0", "S|": "S|61", "S|6162": "S|6163", "M|": "M|00", "M|00ff10": "M|00ff", "O|TypeA|3": "O|TypeA|2", "O|TypeB|1": "O|TypeA|1"}
+                     "P|f|2": "P|f|0", "S|": "S|61", "S|6162": "S|6163", "M|": "M|00", "M|00ff10": "M|00ff"}
             acts.append(other[e])
         for a in acts:
             execs.append([["expect", "", "f", 1, 0, 0, "p=" + e, "-", "-"], ["begin", "", "f"], ["param", "", "p", a], ["ret", "", "value", rng.choice(["call", "support"])], ["check"], ["end"]])
+    # (1b) user types, every type name (ordinary names; some begin or end like a built-in type name): a parameter compared by the
+    # function installed for the name - the same object, one that agrees in the first field only, a different one, the same content
+    # under another type name - and an output parameter copied by the function installed for the name
+    tns = G.user_type_names()
+    for i, tn in enumerate(tns):
+        if quick and i % 3 != 0 and tn not in ("intPair", "boolean_flag", "doubleBox"):
+            continue
+        md, cp = ("whole", "first")[i % 2], ("plain", "inv")[(i // 2) % 2]
+        tn2 = tns[(i + 1) % len(tns)]
+        for act in ("O|%s|2,3" % tn, "O|%s|2,1" % tn, "O|%s|1,3" % tn, "O|%s|2,3" % tn2):
+            execs.append([["installcmp", "", tn, md], ["installcmp", "", tn2, "whole"], ["expect", "", "f", 1, 0, 0, "p=O|%s|2,3" % tn, "-", "-"], ["begin", "", "f"],
+                          ["param", "", "p", act], ["ret", "", "value", rng.choice(["call", "support"])], ["check"], ["end"]])
+        execs.append([["installcpy", "", tn, cp], ["expect", "", "f", 1, 0, 0, "-", "y=%s:2a00ff01" % tn, "-"], ["begin", "", "f"], ["outparam", "", "y", tn],
+                      ["ret", "", "value", "call"], ["check"], ["end"]])
+        # no comparator for the name in this scope
+        execs.append([["installcmp", "s", tn, md], ["expect", "", "f", 1, 0, 1, "-", "-", "-"], ["begin", "", "f"], ["param", "", "p", "O|%s|2,3" % tn], ["check"], ["end"]])
     # (2) return values: every return type x every getter
     rvals = [enc_int(c, v) for c, v in ints] + ["B|0", "B|1", "P|v|1", "P|c|2", "P|f|1", "P|f|0", "S|6162", "S|", "D|fin|0|12|fin|0|0", "D|inf|1|0|fin|0|0", "-"]
     for r in rvals:
@@ -169,19 +203,61 @@ def sweep(rng, quick):
             line = ["ret", "", g, rng.choice(["call", "support"])] + ([dflt[g[:-2]]] if g.endswith("/d") else [])
             execs.append([["expect", "", "f", 1, 0, 0, "-", "-", r], ["begin", "", "f"], line, ["check"], ["end"]])
     # (3) data store
-    for d in ["B|1", "B|0", enc_int("int", -2 ** 31), enc_int("int", 5), enc_int("uint", 2 ** 32 - 1), "S|6869", "D|fin|1|-9|fin|0|0", "P|v|1", "P|c|2", "P|f|1", "O|TypeA|3"]:
+    for d in ["B|1", "B|0", enc_int("int", -2 ** 31), enc_int("int", 5), enc_int("uint", 2 ** 32 - 1), "S|6869", "D|fin|1|-9|fin|0|0", "P|v|1", "P|c|2", "P|f|1"]:
         execs.append([["setdata", "", "k", d], ["getdata", "", "k"], ["getdata", "", "missing"], ["setdata", "s", "k", "B|1"], ["getdata", "s", "k"], ["clear"], ["getdata", "", "k"], ["end"]])
+    # objects of user types in the data store, every type name, const and non-const, in the global scope and in a child scope
+    for i, tn in enumerate(tns):
+        for how in ("const", "mut"):
+            d = "O|%s|%d,%d" % (tn, 1 + i % 3, 1 + (i // 3) % 3)
+            sc = ("", "s")[(i + (how == "mut")) % 2]
+            execs.append([["setdata", sc, "k", d, how], ["getdata", sc, "k"], ["getdata", sc, "missing"], ["setdata", "s", "other", "B|1"], ["getdata", "s", "other"],
+                          ["setdata", sc, "k", "O|%s|3,3" % tns[(i + 7) % len(tns)], how], ["getdata", sc, "k"], ["clear"], ["getdata", sc, "k"], ["end"]])
     # (4) output parameters, ignore-other-parameters, counts, order, flags
-    execs.append([["expect", "", "f", 1, 0, 0, "-", "x=raw:0102030405060708;y=TypeA:2a000000;z=raw:", "-"], ["begin", "", "f"], ["outparam", "", "x", "raw"],
+    execs.append([["installcpy", "", "TypeA", "plain"], ["expect", "", "f", 1, 0, 0, "-", "x=raw:0102030405060708;y=TypeA:2a000000;z=raw:", "-"], ["begin", "", "f"], ["outparam", "", "x", "raw"],
                   ["outparam", "", "y", "TypeA"], ["outparam", "", "z", "raw"], ["ret", "", "value", "call"], ["check"], ["end"]])
-    execs.append([["expect", "", "f", 1, 0, 0, "-", "y=TypeA:2a000000", "-"], ["begin", "", "f"], ["outparam", "", "y", "TypeB"], ["check"], ["end"]])
+    execs.append([["installcpy", "", "TypeA", "inv"], ["expect", "", "f", 1, 0, 0, "-", "y=TypeA:2a000000", "-"], ["begin", "", "f"], ["outparam", "", "y", "TypeB"], ["check"], ["end"]])
     execs.append([["expect", "", "f", 2, 0, 1, "p=" + enc_int("int", 1), "-", enc_int("int", 3)], ["begin", "", "f"], ["param", "", "zz", "B|1"],
                   ["param", "", "p", enc_int("long", 1)], ["ret", "", "int", "support"], ["left"], ["begin", "", "f"], ["param", "", "p", enc_int("int", 1)], ["check"], ["end"]])
     execs.append([["strict", ""], ["expect", "", "f", 1, 0, 0, "-", "-", "-"], ["expect", "", "g", 1, 0, 0, "-", "-", "-"], ["begin", "", "g"], ["begin", "", "f"], ["check"], ["end"]])
     execs.append([["expect", "", "f", 0, 0, 0, "-", "-", "-"], ["ignoreothers"], ["begin", "", "h"], ["param", "", "p", "B|1"], ["ret", "", "int/d", "call", enc_int("int", 9)],
                   ["disable"], ["expect", "", "g", 1, 0, 0, "-", "-", "-"], ["begin", "", "f"], ["enable"], ["begin", "", "f"], ["check"], ["end"]])
     execs.append([["expect", "s", "f", 1, 0, 0, "-", "-", enc_int("int", 4)], ["begin", "s", "f"], ["ret", "s", "int", "support"], ["begin", "", "f"], ["check"], ["end"]])
-    return execs
+    return execs + scope_matrix(tns)
+
+
+def scope_matrix(tns):
+    """comparators and copiers are per scope: every ordered pair of distinct scopes among the global one and two children installs a
+    function for ONE type name - every combination of the two comparison (copy) functions, in that order - and then each of the two
+    scopes is used: the verdict (the bytes) must be the ones of the function that scope has.  Also: two installations in the global
+    scope before a child exists, and removal followed by a new installation."""
+    execs = []
+    scopes = ["", "s", "t"]
+    n = 0
+
+    def use_cmp(S, tn):
+        return [["expect", S, "f", 1, 0, 0, "p=O|%s|1,2" % tn, "-", "-"], ["begin", S, "f"], ["param", S, "p", "O|%s|1,3" % tn], ["ret", S, "value", "call"], ["check"], ["end"]]
+
+    def use_cpy(S, tn):
+        return [["expect", S, "f", 1, 0, 0, "-", "x=%s:2a00ff01" % tn, "-"], ["begin", S, "f"], ["outparam", S, "x", tn], ["ret", S, "value", "call"], ["check"], ["end"]]
+    for op, modes, use in (("installcmp", ("whole", "first"), use_cmp), ("installcpy", ("plain", "inv"), use_cpy)):
+        for m1 in modes:
+            for m2 in modes:
+                for A in scopes:
+                    for B in scopes:
+                        if A == B:
+                            continue
+                        tn = tns[n % len(tns)]
+                        n += 1
+                        for S in (A, B):
+                            execs.append([[op, A, tn, m1], [op, B, tn, m2]] + use(S, tn))
+                tn = tns[n % len(tns)]
+                n += 1
+                for S in scopes[:2]:
+                    execs.append([[op, "", tn, m1], [op, "", tn, m2]] + use(S, tn))                         # twice, then a new child
+                    execs.append([[op, "", tn, m1], ["removeall", ""], [op, "s", tn, m2]] + use(S, tn))      # removed, then the child only
+                    execs.append([[op, "s", tn, m1], [op, "", tn, m2], ["clear"]] + use(S, tn))              # clear() destroys the child
+    # an output parameter of a user type is expected only where a copier is in force (the frame of Mock.tla)
+    return [e for e in execs if not (e[0][0] == "installcpy" and e[1][0] == "removeall" and any(l[0] == "expect" and l[1] == "" for l in e))]
 
 
 HEX = re.compile(r"0x[0-9a-fA-F]+")
@@ -245,6 +321,39 @@ def before_any_call_family():
             [["ret", "", "int", "support"], ["ret", "", "value", "support"], ["end"]]]
 
 
+def value_class(e):
+    """class of an encoded value for divergence keys: its kind; for an object of a user type whether the type name begins like a
+    built-in type name"""
+    f = str(e).split("|")
+    if f[0] != "O":
+        return f[0]
+    like = [b for b in G.BUILTIN_TYPE_NAMES if f[1].startswith(b)]
+    return "obj~" + max(like, key=len) if like else "obj"
+
+
+def detail(ex, i):
+    """what distinguishes the failing call within its operation (part of the divergence key)"""
+    if i >= len(ex):
+        return ""
+    l = ex[i]
+    op = l[0]
+    if op == "ret":
+        return ":" + str(l[2])
+    if op in ("param", "setdata"):
+        return ":" + value_class(l[3])
+    if op == "getdata":
+        src = [x for x in ex[:i] if x[0] == "setdata" and x[1] == l[1] and x[2] == l[2]]
+        return ":" + (value_class(src[-1][3]) if src else "missing")
+    if op in ("installcmp", "installcpy", "removeall"):
+        return ":" + ("global" if l[1] == "" else "child")
+    if op in ("outparam",):
+        return ":" + ("raw" if l[3] == "raw" else "typed")
+    if any(x[0] in ("installcmp", "installcpy") for x in ex[:i]) and op in ("check", "end", "begin", "expect"):
+        nsc = len({x[1] for x in ex[:i] if x[0] in ("installcmp", "installcpy")})
+        return ":usertypes-in-%d-scope%s" % (nsc, "" if nsc == 1 else "s")
+    return ""
+
+
 def key_fn(mode, family):
     def f(kind, ex, idx, observed):
         op = ex[idx][0] if idx < len(ex) else "?"
@@ -252,8 +361,7 @@ def key_fn(mode, family):
         if family:
             g = next((l[2] for l in ex if l[0] == "ret"), "?")
             return "%s:%s:%s:%s" % (kind, mode, family, g)
-        extra = (":" + str(ex[idx][2])) if op == "ret" and idx < len(ex) else ""
-        return "%s:%s:%s%s:%s" % (kind, mode, op, extra, r)
+        return "%s:%s:%s%s:%s" % (kind, mode, op, detail(ex, idx), r)
     return f
 
 
@@ -292,7 +400,7 @@ def run(ctx):
                 ex = execs[k]
                 op = ex[i][0] if i < len(ex) else "?"
                 fields = sorted(f for f in set(projection(a)) | set(projection(b)) if projection(a).get(f) != projection(b).get(f))
-                key = "differ:%s%s:%s" % (op, (":" + str(ex[i][2])) if op == "ret" else "", ",".join(fields))
+                key = "differ:%s%s:%s" % (op, detail(ex, i), ",".join(fields))
                 if family:
                     key = "differ:%s:%s" % (family, next((l[2] for l in ex if l[0] == "ret"), "?"))
                 ctx.diverge(key, "%s: the C interface and the C++ interface disagree at call %d of execution %d (%s): C++ %s / C %s"
